@@ -69,6 +69,15 @@ def h_tx(ctx, sig, spk, wit, mutable=False):
     ext = W.has_witness(f)
     ctx.check((ser[4:6] == ctx.B(b'\x00\x01')) if ext else ctx.not_(ser[4:6] == ctx.B(b'\x00\x01')),
               'tx: BIP144 marker/flag iff some witness stack non-empty')
+    # call-order independence: a stripped serialisation (as GetTxid / weight computations request it) first, then the full one
+    tx2 = K.build_tx(ctx, f, mutable)
+    ctx.check(tx2.serialize(dict(include_witness=False)) == W.tx(ctx, f, with_witness=False), 'tx: stripped serialisation == reference')
+    ctx.check(tx2.serialize() == ref, 'tx: serialize == reference encoding', detail='after a stripped serialisation of the same object')
+    if len(f['vout']) > 0:
+        tx3 = K.build_tx(ctx, f, mutable)
+        tx3.calc_weight()
+        tx3.GetTxid()
+        ctx.check(tx3.serialize() == ref, 'tx: serialize == reference encoding', detail='after calc_weight / GetTxid')
     _roundtrip(ctx, cls, tx, ref, lambda t: K.tx_fields_equal(ctx, t, f), 'tx')
 
 
@@ -117,6 +126,10 @@ def h_block(ctx, txshapes):
         if len(b.vtx) != len(tfs):
             return False
         return ctx.and_(K.header_fields_equal(ctx, b, hf), *[K.tx_fields_equal(ctx, t, f) for t, f in zip(b.vtx, tfs)])
+    if txs:
+        blk2 = C.CBlock(hf['nVersion'], hf['hashPrevBlock'], hf['hashMerkleRoot'], hf['nTime'], hf['nBits'], hf['nNonce'], [K.build_tx(ctx, f) for f in tfs])
+        blk2.GetWeight()
+        ctx.check(blk2.serialize() == W.block(ctx, hf, tfs), 'block: serialize == reference encoding', detail='after GetWeight')
     _roundtrip(ctx, C.CBlock, blk, W.block(ctx, hf, tfs), eq, 'block', exts=(1, 9), dense=48)
 
 
